@@ -72,6 +72,15 @@ def gen_case(d, family='small', enzymes=None, n_small=(1, 5), ref_kw=None, alt=T
     ref = Ref(refd)
     records = []
     tids = list(ref.txs)
+    if family == 'small' and d.chance(0.08):
+        planted = plant_lookbehind_gain(d, refd, tids[0])
+        if planted:
+            refd, records = planted
+            ref = Ref(refd)
+            opts = gen_opts(d, ['trypsin'], alt=alt, limits=limits, exceptions=exceptions)
+            opts.update(miscleavage=d.choice([1, 2, 2, 3]), min_length=5)
+            return dict(family='small', ref=refd, records=records, opts=opts,
+                planted='trypsin_lookbehind')
     if family in ('small', 'multi'):
         for tid in tids:
             if family == 'multi' and d.chance(0.25):
@@ -142,6 +151,67 @@ def gen_case(d, family='small', enzymes=None, n_small=(1, 5), ref_kw=None, alt=T
     if novel and family in ('small', 'multi') and d.chance(0.15):
         opts['coding_novel_orf'] = True
     return dict(family=family, ref=refd, records=records, opts=opts)
+
+
+def plant_lookbehind_gain(d, refd, tid):
+    """ trypsin cuts K|P and R|P only behind W resp. M (ExPASy: WK|P, MR|P). Plant
+    [KR] x K P (or [KR] x R P) into the CDS, where codon x is one SNV away from W (M), and
+    return records: the SNV that creates the site, a second variant a few codons downstream
+    and optionally one upstream. The gained site lies right behind another site, so the
+    residue that creates it is the first residue of its peptide. """
+    import copy
+    from vf.model import COMP
+    ref = Ref(refd)
+    t = ref.tx(tid)
+    g = ref.gene_of(tid)
+    if not t.get('cds') or 'cds_start_NF' in t.get('tags', []):
+        return None
+    s, e = t['cds']
+    ncod = (e - s) // 3
+    if ncod < 14:
+        return None
+    idx = ref.tx_genomic(tid)
+    tg = ref.tx_gene(tid)
+    secs = set(t.get('secs', []))
+    c0 = s + 3 * d.randint(2, ncod - 10)
+    span = range(c0, c0 + 12)
+    if any(p in secs or p + 1 in secs or p + 2 in secs for p in span) or \
+            any(abs(idx[p + 1] - idx[p]) != 1 for p in range(c0, c0 + 11)):
+        return None
+    which = d.choice(['W', 'M'])
+    if which == 'W':
+        near, target, pos_in_codon = d.choice([('TGT', 'TGG', 2), ('TGC', 'TGG', 2), ('CGG', 'TGG', 0),
+            ('GGG', 'TGG', 0), ('TCG', 'TGG', 1), ('TTG', 'TGG', 1)])
+        codons = [d.choice(['AAA', 'AGA']), near, 'AAG', 'CCA']
+    else:
+        near, target, pos_in_codon = d.choice([('ATA', 'ATG', 2), ('ATC', 'ATG', 2), ('CTG', 'ATG', 0),
+            ('GTG', 'ATG', 0), ('AAG', 'ATG', 1), ('ACG', 'ATG', 1)])
+        codons = [d.choice(['AAA', 'AGA']), near, 'CGT', 'CCA']
+    new = copy.deepcopy(refd)
+    ch = list(new['chroms'][g['chrom']])
+    for k, nt in enumerate(''.join(codons)):
+        gp = idx[c0 + k]
+        ch[gp] = nt if g['strand'] == 1 else nt.translate(COMP)
+    new['chroms'][g['chrom']] = ''.join(ch)
+    ref2 = Ref(new)
+    gseq = ref2.gene_seq(g['id'])
+    p = c0 + 3 + pos_in_codon
+    records = [dict(kind='small', tx=tid, g=tg[p], ref=gseq[tg[p]], alt=target[pos_in_codon])]
+    if records[0]['ref'] == records[0]['alt']:
+        return None
+    records += vargen.gen_small(d, ref2, tid, d.randint(1, 2), spread=6,
+        center=min(e - 2, c0 + 12 + 3 * d.randint(0, 3)), kinds=['snv', 'snv', 'ins', 'del'])
+    if d.chance(0.4):
+        records += vargen.gen_small(d, ref2, tid, 1, spread=6, center=max(s + 4, c0 - 9),
+            kinds=['snv'])
+    seen = set()
+    uniq = []
+    for r in records:
+        k = (r['g'], r['ref'], r['alt'])
+        if k not in seen and not any(x['g'] == r['g'] for x in uniq):
+            seen.add(k)
+            uniq.append(r)
+    return new, uniq
 
 
 def strategy_for(families, **kw):
